@@ -278,6 +278,30 @@ pub fn gen_daub(rng: &mut Rng, tier: &Tier) -> Vec<Case> {
         c.push("cfg 1".into());
         cases.push(c);
     }
+    // the same filters assembled by hand: two convolutions built with `from_guts` (kernel + tap ring at any fill level)
+    // put into `Analyze::from_guts` / `Synthesize::from_guts`. With both rings full the history clauses apply (the
+    // rings ARE the last N inputs, oldest first, and the kernels are the configured ones)
+    for _ in 0..tier.n(60, 600) {
+        let n = rng.range(1, 6) as usize;
+        let kern = |rng: &mut Rng| -> String { (0..n).map(|_| crate::gen::rat(rng)).collect::<Vec<_>>().join(",") };
+        let (lo, hi) = (kern(rng), kern(rng));
+        let k = if rng.chance(2, 3) { n } else { rng.range(0, n as i64) as usize };
+        let taps = |rng: &mut Rng, k: usize| -> String {
+            if k == 0 { "-".to_string() } else { (0..k).map(|_| rng.range(-6, 6).to_string()).collect::<Vec<_>>().join(",") }
+        };
+        let t = taps(rng, k);
+        let mut c = vec![
+            format!("inject 1 analyze low={} high={} ltaps={} htaps={}", lo, hi, t, t),
+            format!("inject 2 synthesize low={} high={} ltaps={} htaps={}", lo, hi, taps(rng, k), taps(rng, k)),
+            "cfg 1".to_string(),
+            "cfg 2".to_string(),
+        ];
+        for _ in 0..rng.range(1, 2 * n as i64 + 3) {
+            c.push(format!("f 1 {}", rng.range(-6, 6)));
+            c.push(format!("f 2 {} {}", rng.range(-6, 6), rng.range(-6, 6)));
+        }
+        cases.push(c);
+    }
     cases
 }
 
